@@ -40,6 +40,14 @@ CHECKS = {
    technique="exhaustive enumeration of small security configurations (compiled) × all credential states × all authenticator-installed subsets; oracle = reference evaluator of the effective requirement",
    text="All configurations with two schemes A,B (ordered pairs of bearer / apiKey header / apiKey query, plus unsupported kinds), global in {none,[A],[A,B]}, two operations on the same path or on different paths, each with {inherit, [], [A], [B], [A,B], [A and B]} are generated and compiled (about 1700 quick). Each operation is requested with every combination of absent/valid/invalid credential per scheme under every subset of authenticators installed or nil. The handler must run iff the operation is public or an alternative of its own effective requirement is fully accepted, must see the request returned by an accepting authenticator, otherwise 401 without the handler; no authenticator of an unlisted scheme is consulted; no panic.",
    note="three operations and more than two schemes are not enumerated; the bearer prefix variants are not part of the credential alphabet; two known findings (conjunction keeps one scheme; all-unsupported requirement becomes public) mask their supersets"),
+ "C14": dict(engine="batch+drv", ref="§4 C14",
+   technique="bounded-exhaustive sweep of each request dimension (and of dimension pairs over reduced alphabets) against compiled kitchen-sink packages; oracle = recover() around ServeHTTP and Parse(), exactly one WriteHeader",
+   text="Eleven kitchen-sink packages (all parameter kinds under a base path; each JSON body kind inline and by $ref; oneOf with and without discriminator and allOf; raw body; alternative security schemes with cors, explicit OPTIONS and the spec route) are generated and compiled. For every target operation each dimension is swept completely with the others at a valid default: 7 methods, every path string of <= 5 (6) bytes over {/,a,v,1,{} plus single-byte deletions/doublings of declared paths, query strings of <= 3 (4) tokens, declared and credential headers in 5 variants, every credential subset absent/invalid, bodies of <= 4 (5) JSON tokens over a 12-token alphabet plus schema-directed valid and single-fault documents, failing readers and deep nesting; pairs body×query and path×query over reduced alphabets; all under hooks installed and hooks nil (8e6 requests quick).",
+   note="bounded alphabets per dimension, not all byte strings; the full five-way product is not claimed; coverage-guided fuzzing (sampling) is deliberately not used"),
+ "C17": dict(engine="batch+drv", ref="§4 C17",
+   technique="enumeration of path-item configurations (compiled): method subsets × header-parameter variants × security variants × explicit OPTIONS × second path × cors on/off; oracle = set equality of the arguments received by the CORS handler constructor with the model",
+   text="Every configuration of a path item /a/b (method subset, header parameters at operation / path-item level / two casings / two distinct / component $ref, security none / global bearer / per-operation apiKey header / both / bearer with a public override, explicit OPTIONS or not) next to a second path (/q or the variable sibling /a/{x}, with or without its own OPTIONS), cors on and off, is generated and compiled (900 quick, all 15 method subsets thorough). OPTIONS is sent to each declared and to undeclared paths with the CORS handler set and nil: the constructor must be called once with exactly the declared methods and the canonical de-duplicated header set of the model; a declared OPTIONS operation is never shadowed; nil handler or cors off means not found.",
+   note="order of methods/headers is not compared (sets, duplicates are violations); with cors off a sibling template that declares OPTIONS may take the request (C03 don't-care)"),
 }
 NA_REASON = "check not built yet (work in progress; see DESIGN.md §13)"
 def main():
